@@ -60,6 +60,16 @@ class Interp:
             return VTuple([self.fresh_value(et, "%s_%d" % (hint, i)) for i, et in enumerate(t.elems)], t)
         if isinstance(t, TRec):
             return VRec({fn: self.fresh_value(ft, "%s_%s" % (hint, fn)) for fn, ft in t.fields.items()}, t)
+        if isinstance(t, TMutRec):
+            e = p.fresh(hint, t.sort())
+            for fn, ft in t.fields.items():
+                self._assume_wf_expr(t.acc(fn, e), ft)
+            return t.wrap(e)
+        if isinstance(t, TDRec):
+            v = VDRec(p.fresh(hint, t.sort()), t)
+            for fn, ft in t.fields.items():
+                self._assume_wf_expr(t.val(fn, v.e), ft)
+            return v
         if isinstance(t, TList):
             arr = p.fresh(hint + "_arr", z3.ArraySort(z3.IntSort(), t.elem.sort()))
             n = p.fresh(hint + "_n", z3.IntSort())
@@ -234,6 +244,7 @@ class Interp:
             return c
         elif isinstance(v, VDictRec):
             c = VDictRec({})
+            c.mt = v.mt
             memo[id(v)] = c
             for fn, fv in v.fields.items():
                 c.fields[fn] = self.clone_value(fv, memo)
@@ -242,6 +253,9 @@ class Interp:
             c = VTuple([self.clone_value(x, memo) for x in v.items], v._t)
         elif isinstance(v, VOptObj):
             c = VOptObj(v.present, self.clone_value(v.obj, memo))
+        elif _is_j(v):
+            from . import jsontree
+            return jsontree.clone(self, v, memo)
         else:
             c = v  # immutable wrappers
         memo[id(v)] = c
@@ -305,6 +319,13 @@ class Interp:
             return z3.BoolVal(len(v.items) > 0)
         if isinstance(v, VDictRec):
             return z3.BoolVal(len(v.fields) > 0)
+        if isinstance(v, VDRec):
+            return z3.BoolVal(True) if v.t.required else z3.Or([v.has(fn) for fn in v.t.optional] + [z3.BoolVal(False)])
+        if _is_j(v):
+            from . import jsontree
+            return jsontree.truth(self, v)
+        if isinstance(v, (VEmptyList, VEmptySet)):
+            return z3.BoolVal(False)
         if isinstance(v, VOptObj):
             return z3.And(v.present, self.truth(v.obj))
         if isinstance(v, VObj):
@@ -325,7 +346,7 @@ class Interp:
             return z3.Or([v.fields["has_" + k].e for k in keys] + [z3.BoolVal(False)])
         if hasattr(v, "truth_expr"):
             return v.truth_expr(self)
-        if isinstance(v, (VFunc, VClass, VModule, VRec, VUn, VOpaque, VExc, VPath)):
+        if isinstance(v, (VFunc, VClass, VModule, VRec, VUn, VOpaque, VExc, VPath, VNaN)):
             return z3.BoolVal(True)
         raise Unsupported("truth of %s" % type(v).__name__)
 
@@ -349,8 +370,13 @@ class Interp:
     def eq(self, a, b):
         if isinstance(a, VUndef) or isinstance(b, VUndef):
             return self.undef_bool()
+        if isinstance(a, VNaN) or isinstance(b, VNaN):
+            return z3.BoolVal(False)          # nan != everything, itself included
         if a is b and not isinstance(a, (VReal,)):
             return z3.BoolVal(True)
+        if _is_j(a) or _is_j(b):
+            from . import jsontree
+            return jsontree.eq(self, a, b)
         if isinstance(a, VNone) or isinstance(b, VNone):
             if isinstance(a, VNone) and isinstance(b, VNone):
                 return z3.BoolVal(True)
@@ -382,6 +408,22 @@ class Interp:
             if len(a.items) != len(b.items):
                 return z3.BoolVal(False)
             return z3.And([self.eq(x, y) for x, y in zip(a.items, b.items)] + [z3.BoolVal(True)])
+        if isinstance(a, VDRec) or isinstance(b, VDRec):
+            if isinstance(a, VDictRec) and drec_shape_ok(a, b.t):
+                a = b.t.wrap(drec_of_literal(a, b.t))
+            if isinstance(b, VDictRec) and drec_shape_ok(b, a.t):
+                b = a.t.wrap(drec_of_literal(b, a.t))
+            if not (isinstance(a, VDRec) and isinstance(b, VDRec) and a.t == b.t):
+                return z3.BoolVal(False)
+            # dict equality: same keys present, equal values on them (values of absent keys are irrelevant)
+            conj = []
+            for fn in a.t.fields:
+                if fn in a.t.optional:
+                    conj.append(a.has(fn) == b.has(fn))
+                    conj.append(z3.Implies(a.has(fn), self.eq(a.field(fn), b.field(fn))))
+                else:
+                    conj.append(self.eq(a.field(fn), b.field(fn)))
+            return z3.And(conj + [z3.BoolVal(True)])
         if isinstance(a, VRec) and isinstance(b, VRec):
             if a.t.nm != b.t.nm:
                 return z3.BoolVal(False)
@@ -405,6 +447,13 @@ class Interp:
         if isinstance(a, VSet) and isinstance(b, VSet) and a.kt == b.kt:
             k = z3.Const(self.path.fresh_name("eq_k"), a.kt.sort())
             return z3.ForAll([k], z3.Select(a.dom, k) == z3.Select(b.dom, k))
+        if isinstance(a, VDictRec) and isinstance(b, VDictRec) and (a.mt is not None or b.mt is not None):
+            # by-value records: python dict equality is structural
+            mt = a.mt if a.mt is not None else b.mt
+            try:
+                return unwrap(a, mt) == unwrap(b, mt)
+            except TypeError:
+                return z3.BoolVal(False)
         if isinstance(a, (VObj, VFunc, VClass, VDictRec, VOpaque)) or isinstance(b, (VObj, VFunc, VClass, VDictRec, VOpaque)):
             if isinstance(a, VClass) and isinstance(b, VClass):
                 return z3.BoolVal(a.name == b.name)
@@ -423,6 +472,8 @@ class Interp:
                 b = b.val()
         elif isinstance(a, VOpt) or isinstance(b, VOpt):
             a, b = self.force(a), self.force(b)
+        if (isinstance(a, VNaN) and (is_num(b) or isinstance(b, VNaN))) or (isinstance(b, VNaN) and is_num(a)):
+            return z3.BoolVal(False)          # every ordering comparison with nan is False
         if isinstance(a, VNone) or isinstance(b, VNone):
             self.raise_exc("TypeError", "ordering comparison with None")
         if is_num(a) and is_num(b):
@@ -432,7 +483,12 @@ class Interp:
                 x, y = to_int(a), to_int(b)
             return x < y if strict else x <= y
         if isinstance(a, VStr) and isinstance(b, VStr):
+            if getattr(self.ver, "abstract_str_order", False):
+                return self.abstract_str_le(a.e, b.e, strict)
             return (a.e < b.e) if strict else (a.e <= b.e)
+        if type(a).__name__ == "VWStr" and type(b).__name__ == "VWStr":
+            from . import jsontree
+            return jsontree.w_lt(self, a, b, strict)
         if isinstance(a, VTuple) and isinstance(b, VTuple):
             return self._lex(a.items, b.items, strict)
         if isinstance(a, VUn) and isinstance(b, VUn) and a.t == b.t:
@@ -446,6 +502,26 @@ class Interp:
         if self.spec:
             raise Unsupported("ordering of %s and %s" % (type(a).__name__, type(b).__name__))
         self.raise_exc("TypeError", "unorderable")
+
+    def abstract_str_le(self, x, y, strict):
+        """per-contract option abstract_str_order: the lexicographic order of strings is replaced by an
+        uninterpreted *total order* `str_le` (reflexive, antisymmetric, transitive, total).  Sound: every obligation
+        proved for an arbitrary total order holds for the real one (facts imported from callee contracts are read
+        through the same abstraction and hold for the real order); z3's native str.< / str.<= make goals with
+        order axioms over symbolic strings (sorted(key=...(.., id))) intractable."""
+        f = z3.Function("str_le", z3.StringSort(), z3.StringSort(), z3.BoolSort())
+        if not getattr(self.path, "_strord_axioms", False):
+            self.path._strord_axioms = True
+            a, b, c = z3.Strings("so_a so_b so_c")
+            self.path.assume(z3.ForAll([a], f(a, a), patterns=[f(a, a)]))
+            self.path.assume(z3.ForAll([a, b], z3.Or(f(a, b), f(b, a)), patterns=[f(a, b)]))
+            self.path.assume(z3.ForAll([a, b], z3.Implies(z3.And(f(a, b), f(b, a)), a == b), patterns=[z3.MultiPattern(f(a, b), f(b, a))]))
+            self.path.assume(z3.ForAll([a, b, c], z3.Implies(z3.And(f(a, b), f(b, c)), f(a, c)),
+                                       patterns=[z3.MultiPattern(f(a, b), f(b, c))]))
+            self.ver.note_assumption("string order abstracted to an uninterpreted total order (contract option abstract_str_order)")
+        if strict:
+            return z3.And(f(x, y), x != y)
+        return f(x, y)
 
     def _lex(self, xs, ys, strict):
         if not xs or not ys:
@@ -534,6 +610,9 @@ class Interp:
         if hint_type is None:
             if not items:
                 et = None
+            elif any(isinstance(x, (VDictRec, VObj)) for x in items):
+                # elements without a symbolic encoding (dict literals / heap objects): concrete python-level list
+                return VPyList(items)
             else:
                 et = self.join_types([typeof(self.encodable(x)) for x in items])
         else:
@@ -568,23 +647,16 @@ class Interp:
     def default_of(self, t):
         return z3.Const("dflt_" + "".join(c if c.isalnum() else "_" for c in t.name), t.sort())
 
-    def _dict_with_unpacked_record(self, n, env):
-        """{**rec, "k": v, ...} where rec is a dict-shaped record: the result is the declared dict-shaped record type
-        whose key set is exactly the union (later keys override earlier ones, as in python)."""
+    def _keyrec_with_unpacked(self, n, env, first):
+        """{**rec, "k": v, ...} for R.keyrec records (Optional-encoded optional keys)"""
         vals = {}
         for k, v in zip(n.keys, n.values):
             if k is None:
-                src = self.ev(v, env)
-                if not self.spec:
-                    src = self.force(src)
-                if isinstance(src, VRec) and getattr(src.t, "dictshape", False):
-                    for fn, fv in src.fields.items():
-                        vals[fn] = (fv, fn in src.t.optkeys)
-                elif isinstance(src, VDictRec):
-                    for fn, fv in src.fields.items():
-                        vals[fn] = (fv, False)
-                else:
-                    raise Unsupported("dict unpacking of %s" % type(src).__name__)
+                src = first if v is n.values[0] else self.force(self.ev(v, env))
+                if not (isinstance(src, VRec) and getattr(src.t, "dictshape", False)):
+                    raise Unsupported("dict unpacking of %s next to a keyrec" % type(src).__name__)
+                for fn, fv in src.fields.items():
+                    vals[fn] = (fv, fn in src.t.optkeys)
             else:
                 c = const_of(self.ev(k, env))
                 if not isinstance(c, str):
@@ -593,7 +665,7 @@ class Interp:
         cands = [t for t in self.ver.types.named.values()
                  if isinstance(t, TRec) and getattr(t, "dictshape", False) and set(t.fields) == set(vals)]
         if len(cands) != 1:
-            raise Unsupported("dict unpacking literal: %d declared dict-shaped records have the keys %s" % (len(cands), sorted(vals)))
+            raise Unsupported("dict unpacking literal: %d declared keyrecs have the keys %s" % (len(cands), sorted(vals)))
         t = cands[0]
         out = {}
         for fn, ft in t.fields.items():
@@ -607,6 +679,43 @@ class Interp:
             else:
                 out[fn] = ft.wrap(unwrap(v, ft))
         return VRec(out, t)
+
+    def _dict_with_unpacked_record(self, n, env):
+        """{**rec, "k": v, ...} where rec is a dict-shaped record: the result is the declared dict-shaped record type
+        whose key set is exactly the union (later keys override earlier ones, as in python)."""
+        vals = {}
+        for k, v in zip(n.keys, n.values):
+            if k is None:
+                src = self.ev(v, env)
+                if not self.spec:
+                    src = self.force(src)
+                if isinstance(src, VRec) and getattr(src.t, "dictshape", False):
+                    return self._keyrec_with_unpacked(n, env, src)
+                if isinstance(src, VDRec):
+                    for fn in src.t.fields:
+                        vals[fn] = (src.field(fn), src.has(fn) if fn in src.t.optional else None)
+                elif isinstance(src, VDictRec):
+                    for fn, fv in src.fields.items():
+                        vals[fn] = (fv, None)
+                else:
+                    raise Unsupported("dict unpacking of %s" % type(src).__name__)
+            else:
+                c = const_of(self.ev(k, env))
+                if not isinstance(c, str):
+                    raise Unsupported("dict literal with symbolic keys")
+                vals[c] = (self.ev(v, env), None)
+        cands = [t for t in self.ver.types.named.values() if isinstance(t, TDRec) and set(t.fields) == set(vals)
+                 and all(fn in t.optional for fn, (_, pres) in vals.items() if pres is not None)]
+        if len(cands) != 1:
+            raise Unsupported("dict unpacking literal: %d declared dict-shaped records have the keys %s" % (len(cands), sorted(vals)))
+        t = cands[0]
+        zv, present = {}, {}
+        for fn, ft in t.fields.items():
+            v, pres = vals[fn]
+            zv[fn] = unwrap(v, ft)
+            if fn in t.optional:
+                present[fn] = pres if pres is not None else z3.BoolVal(True)
+        return t.wrap(t.mk(zv, present))
 
     def ev_Dict(self, n, env):
         if any(k is None for k in n.keys):
@@ -650,7 +759,13 @@ class Interp:
             elif isinstance(v, ast.FormattedValue):
                 x = self.ev(v.value, env)
                 if v.format_spec is not None or v.conversion not in (-1, 115):
-                    sx = self.ver.opaque_str("fmt", x, self)
+                    # one uninterpreted function per (conversion, format spec): `{x:02d}` and `{x:03d}` must not be
+                    # identified with each other
+                    if v.format_spec is not None and any(isinstance(c, ast.FormattedValue) for c in ast.walk(v.format_spec)):
+                        raise Unsupported("f-string with a computed format spec")
+                    tag ="fmt_%s_%s" % (v.conversion, "".join(c if c.isalnum() else "_" for c in (
+                        ast.unparse(v.format_spec) if v.format_spec is not None else "")))
+                    sx = self.ver.opaque_str(tag, x, self)
                 else:
                     sx = self.to_str(x)
                 parts.append(sx.e)
@@ -683,6 +798,11 @@ class Interp:
             last = self.ev(sub, env)
             if i == len(n.values) - 1:
                 return last
+            if isinstance(n.op, ast.Or) and i == len(n.values) - 2 and isinstance(n.values[-1], ast.Constant) \
+                    and isinstance(n.values[-1].value, str) and isinstance(last, VStr):
+                # `s or "<literal>"` on a string: value-level (no path fork); the literal has no side effect and a
+                # str is falsy exactly when it is empty
+                return VStr(z3.If(last.e != z3.StringVal(""), last.e, z3.StringVal(n.values[-1].value)))
             # pure boolean fast path: remaining operands are side-effect free comparisons
             t = self.test(last)
             if isinstance(n.op, ast.And) and not t:
@@ -701,6 +821,9 @@ class Interp:
             return a
         if z3.is_false(c):
             return b
+        if isinstance(a, VDictRec) and isinstance(b, VDictRec) and (a.mt is not None or b.mt is not None) and self.spec:
+            mt = a.mt if a.mt is not None else b.mt   # by-value records (spec level only: the result is a copy)
+            return mt.wrap(z3.If(c, unwrap(a, mt), unwrap(b, mt)))
         if isinstance(a, (VObj, VFunc, VDictRec)) or isinstance(b, (VObj, VFunc, VDictRec)):
             if a is b:
                 return a
@@ -779,19 +902,28 @@ class Interp:
             return z3.Not(self.contains(b, a))
         raise Unsupported("compare op")
 
-    def is_(self, a, b):
-        if isinstance(a, VNone) or isinstance(b, VNone):
-            return self.eq(a, b)
-        if not self.spec and (isinstance(a, VOpt) or isinstance(b, VOpt)):
-            a, b = self.force(a), self.force(b)
-            if isinstance(a, VNone) or isinstance(b, VNone):
-                return self.eq(a, b)
+    def is_(self, a, b_):
+        if isinstance(a, VNone) or isinstance(b_, VNone):
+            return self.eq(a, b_)
+        if not self.spec and (isinstance(a, VOpt) or isinstance(b_, VOpt)):
+            a, b_ = self.force(a), self.force(b_)
+            if isinstance(a, VNone) or isinstance(b_, VNone):
+                return self.eq(a, b_)
+        if _is_j(a) or _is_j(b_):
+            return z3.BoolVal(a is b_)
         if isinstance(a, (VObj, VFunc, VClass, VDictRec, VSeq, VMap, VSet, VOpaque)) or \
-                isinstance(b, (VObj, VFunc, VClass, VDictRec, VSeq, VMap, VSet, VOpaque)):
-            return z3.BoolVal(a is b)
-        if isinstance(a, VBool) and isinstance(b, VBool):
-            return a.e == b.e
-        raise Unsupported("'is' on values")
+                isinstance(b_, (VObj, VFunc, VClass, VDictRec, VSeq, VMap, VSet, VOpaque)):
+            return z3.BoolVal(a is b_)
+        if isinstance(a, VBool) and isinstance(b_, VBool):
+            return a.e == b_.e
+        # identity of two values of an immutable/opaque type is not modelled: an unconstrained boolean that can only
+        # be true when the values are equal (identity implies equality; nothing follows from non-identity)
+        if self.spec:
+            raise Unsupported("'is' on values")
+        bb = self.path.fresh("is_same", z3.BoolSort())
+        self.path.assume(z3.Implies(bb, self.eq(a, b_)))
+        self.ver.note_assumption("`x is y` on non-heap values: unconstrained except that identity implies equality")
+        return bb
 
     def contains(self, cont, x):
         from . import builtins as B
@@ -1220,6 +1352,17 @@ class Interp:
     def spec_seq_eq(self, n, env):
         return VBool(self.eq(self.ev(n.args[0], env), self.ev(n.args[1], env)))
 
+    def spec_same_value(self, n, env):
+        """same_value(a, b): equality of the two values' encodings (for containers: stronger than ==, which is
+        extensional and quantified; true when b is an unmodified copy of a)"""
+        a, b = self.ev(n.args[0], env), self.ev(n.args[1], env)
+        if isinstance(a, VDictRec) and not a.fields and isinstance(b, VMap):
+            a = self.empty_map(b.t)
+        if isinstance(b, VDictRec) and not b.fields and isinstance(a, VMap):
+            b = self.empty_map(a.t)
+        t = self.join_types([typeof(a), typeof(b)])
+        return VBool(unwrap(a, t) == unwrap(b, t))
+
     def spec_same_obj(self, n, env):
         return VBool(z3.BoolVal(self.ev(n.args[0], env) is self.ev(n.args[1], env)))
 
@@ -1401,19 +1544,97 @@ class Interp:
         for t in getattr(s, "targets", [getattr(s, "target", None)]):
             if t is not None:
                 _target_names(t, names)
+        cnt = self.__dict__.setdefault("_assign_cnt", {})
         for nm in sorted(names):
-            for i, cl in enumerate(c.asserts.get(nm, [])):
-                if cl.startswith("ghost:"):
-                    self.exec_ghost(cl[6:], env)
+            # "var" = after every assignment of var; "var@k" = only after its k-th assignment on this path (1-based)
+            cnt[nm] = cnt.get(nm, 0) + 1
+            for key in (nm, "%s@%d" % (nm, cnt[nm])):
+                for i, cl in enumerate(c.asserts.get(key, [])):
+                    if cl.startswith("ghost:"):
+                        self.exec_ghost(cl[6:], env)
+                        continue
+                    if cl.startswith("abstract:"):
+                        # abstraction at the cut point (sound: hypotheses are only dropped, and only proved facts are
+                        # kept): the named list local gets a fresh value about which exactly the clauses proved above at
+                        # this cut point are assumed; the engine's defining axioms of the old value (comprehension /
+                        # permutation / order facts mentioning its array symbol) are removed from the path condition
+                        tgt = env.lookup(cl[9:].strip())
+                        if not isinstance(tgt, VSeq):
+                            raise Unsupported("abstract: %s is not a list local" % cl[9:])
+                        self.forget_facts_about([tgt.arr])
+                        org = tgt.origin
+                        self.havoc_inplace(tgt, "abs_" + cl[9:].strip())
+                        tgt.origin = org
+                        n0 = len(self.path.pc)
+                        for prev in c.asserts.get(key, [])[:i]:
+                            if not prev.startswith(("ghost:", "abstract:", "forget:", "check:", "forget-axioms:")):
+                                self.path.assume(self.eval_spec(prev, env, assume=True))
+                        self.__dict__.setdefault("_cut_facts", {})[key] = list(self.path.pc[n0:])
+                        continue
+                    if cl.startswith("forget-axioms:"):
+                        # drop the engine's defining axioms (comprehension / permutation / order facts) of a list local
+                        # from the path condition: later obligations no longer see how it was computed
+                        tgt = env.lookup(cl[14:].strip())
+                        if not isinstance(tgt, VSeq):
+                            raise Unsupported("forget-axioms: %s is not a list local" % cl[14:])
+                        self.forget_facts_about([tgt.arr])
+                        continue
+                    if cl.startswith("check:"):
+                        # proved here (named obligation) but not kept as a hypothesis
+                        self.path.prove(self.eval_spec(cl[6:], env), "%s/assert-after:%s#%d" % (c.short, key, i), "assert",
+                                        where=cl[6:], assume_form=z3.BoolVal(True))
+                        continue
+                    if cl.startswith("forget:"):
+                        # drop the facts that an earlier abstraction cut point (by key) had assumed
+                        gone = set(f.get_id() for f in self.__dict__.get("_cut_facts", {}).get(cl[7:].strip(), []))
+                        self.path.pc = [f for f in self.path.pc if f.get_id() not in gone]
+                        continue
+                    if cl.startswith("forget-vars:"):
+                        self.forget_facts([x.strip() for x in cl[12:].split(",")], env)
+                        continue
+                    if cl.startswith("define:"):
+                        self.define_abbrev(cl[7:], nm, env, "%s/assert-after:%s#%d" % (c.short, key, i))
+                        continue
+                    self.path.prove(self.eval_spec(cl, env), "%s/assert-after:%s#%d" % (c.short, key, i), "assert", where=cl,
+                                    assume_form=self.eval_spec(cl, env, assume=True))
+
+    def forget_facts_about(self, exprs):
+        """remove from the path condition every quantified fact that mentions an uninterpreted array constant
+        occurring in one of `exprs` (weakening the hypotheses is always sound)"""
+        syms = set()
+        seen = set()
+        stack = list(exprs)
+        while stack:
+            x = stack.pop()
+            if x.get_id() in seen:
+                continue
+            seen.add(x.get_id())
+            if z3.is_quantifier(x):
+                stack.append(x.body())
+            elif z3.is_app(x):
+                if x.num_args() == 0 and x.decl().kind() == z3.Z3_OP_UNINTERPRETED and z3.is_array(x):
+                    syms.add(x.decl().name())
+                stack.extend(x.children())
+        if not syms:
+            return
+
+        def mentions(f):
+            sn = set()
+            st = [f]
+            while st:
+                y = st.pop()
+                if y.get_id() in sn:
                     continue
-                if cl.startswith("forget:"):
-                    self.forget_facts([x.strip() for x in cl[7:].split(",")], env)
-                    continue
-                if cl.startswith("define:"):
-                    self.define_abbrev(cl[7:], nm, env, "%s/assert-after:%s#%d" % (c.short, nm, i))
-                    continue
-                self.path.prove(self.eval_spec(cl, env), "%s/assert-after:%s#%d" % (c.short, nm, i), "assert", where=cl,
-                                assume_form=self.eval_spec(cl, env, assume=True))
+                sn.add(y.get_id())
+                if z3.is_quantifier(y):
+                    st.append(y.body())
+                elif z3.is_app(y):
+                    if y.num_args() == 0 and y.decl().kind() == z3.Z3_OP_UNINTERPRETED and y.decl().name() in syms:
+                        return True
+                    st.extend(y.children())
+            return False
+        from .core import _has_quant
+        self.path.pc = [f for f in self.path.pc if not (_has_quant(f) and mentions(f))]
 
     def define_abbrev(self, src, var, env, oname):
         """cut-point clause `define:<uf term> := <defining expr>` after an assignment to local `var`:
@@ -1478,6 +1699,8 @@ class Interp:
             if dflt is not None:
                 m.default_e = unwrap(dflt, lt.v)     # collections.defaultdict(float|int): missing keys read as 0
             return m
+        if lt.name in ("JObj", "JList"):
+            return self.coerce_value(v, lt)
         if isinstance(v, VEmptySet) and isinstance(lt, TSet):
             return self.empty_set(lt)
         if isinstance(lt, (TOpt,)) or lt is TReal:
@@ -1560,6 +1783,12 @@ class Interp:
             return self.empty_set(t)
         if isinstance(v, VDictRec) and not v.fields and isinstance(t, TMap):
             return self.empty_map(t)
+        if isinstance(v, VDictRec) and not v.fields and t.name == "JObj":
+            from . import jsontree
+            return jsontree.VJDict()
+        if isinstance(v, VEmptyList) and t.name == "JList":
+            from . import jsontree
+            return jsontree.VJList()
         if isinstance(t, TOpt) and not isinstance(v, VOpt):
             try:
                 return t.wrap(unwrap(v, t))
@@ -1951,6 +2180,7 @@ class Interp:
                 raise Unsupported("loop assigns list '%s' of unknown element type; declare it in locals" % nm)
             else:
                 env.find_env(nm).vars[nm] = self.fresh_value(typeof(cur), "lv_" + nm)
+        from .modset import _root
         for p in paths:
             try:
                 node = self.ver.parse_spec(p) if isinstance(p, str) else p
@@ -1986,6 +2216,8 @@ class Interp:
                 if isinstance(v, (VSeq, VMap, VSet, VObj, VDictRec)):
                     self.havoc_inplace(v, "lm")
             except Unsupported:
+                if getattr(node, "_alias_src", False):
+                    continue   # a name of the binding expression that is not a variable here (builtin, comprehension var)
                 raise
         self.havoc_ghost_targets(s, env)
 
@@ -2051,6 +2283,9 @@ def _consts_of(e):
                 out.add(x.decl().name())
             st.extend(x.children())
     return out
+def _is_j(v):
+    """python-side JSON model values (pyvc/jsontree.py)"""
+    return type(v).__name__ in ("VJDict", "VJSet", "VJList", "VWStr")
 
 
 class SpecUndef(Exception):
